@@ -634,6 +634,209 @@ theorem coop_thompson_posterior (g : DDNGraph) (cfg : Cfg) (h : List FOp) (hwf :
   · obtain ⟨a, b, _⟩ := thompson_sync_valid w q recs he gs hne hp t sd
     exact ⟨a, b⟩
 
+/-! ### the learned factored model exposes a probability distribution over joint next states -/
+
+theorem sumUpTo_eq_sumN (f : Nat → Rat) : ∀ w, sumUpTo f w = AITB.Factored.sumN w f
+  | 0 => rfl
+  | w+1 => by simp only [sumUpTo, AITB.Factored.sumN, sumUpTo_eq_sumN f w]
+
+/-- the records the specification state keeps have their next values inside the row -/
+theorem ghost_wf (w : Nat) : ∀ (l : List LOp) (g : Ghost), (∀ x ∈ g.recs, x.1 < w) → (∀ x ∈ g.snap, x.1 < w) →
+    wfAll w l = true → (∀ x ∈ (g.run l).recs, x.1 < w) ∧ (∀ x ∈ (g.run l).snap, x.1 < w)
+  | [], g, hr, hs, _ => ⟨hr, hs⟩
+  | op :: t, g, hr, hs, hl => by
+    simp only [wfAll, List.all_cons, Bool.and_eq_true] at hl
+    simp only [Ghost.run, List.foldl_cons]
+    have key : (∀ x ∈ (g.step op).recs, x.1 < w) ∧ (∀ x ∈ (g.step op).snap, x.1 < w) := by
+      cases op with
+      | record s1 r =>
+        have h1 : s1 < w := by simpa [opWF] using hl.1
+        refine ⟨?_, by simpa [Ghost.step] using hs⟩
+        intro x hx
+        simp only [Ghost.step, List.mem_append, List.mem_singleton] at hx
+        rcases hx with hx | rfl
+        · exact hr x hx
+        · exact h1
+      | sync =>
+        refine ⟨by simpa [Ghost.step] using hr, ?_⟩
+        simp only [Ghost.step]
+        split
+        · exact hs
+        · exact hr
+      | syncInc s1 =>
+        refine ⟨by simpa [Ghost.step] using hr, ?_⟩
+        simp only [Ghost.step]
+        split
+        · exact hs
+        · exact hr
+      | reset => exact ⟨by simp [Ghost.step], by simpa [Ghost.step] using hs⟩
+      | ctor b =>
+        cases b
+        · exact ⟨by simpa [Ghost.step] using hr, by simp [Ghost.step]⟩
+        · exact ⟨by simpa [Ghost.step] using hr, by simpa [Ghost.step] using hr⟩
+      | nop => exact ⟨by simpa [Ghost.step] using hr, by simpa [Ghost.step] using hs⟩
+    exact ghost_wf w t (g.step op) key.1 key.2 (by simpa [wfAll] using hl.2)
+
+/-- a specification row (frequencies of the absorbed records, or the default) is a distribution over `0 … w-1` -/
+theorem specRow_distribution (w : Nat) (hw : 0 < w) (g : Ghost) (hs : ∀ x ∈ g.snap, x.1 < w) :
+    AITB.Factored.sumN w (specRow w 0 g) = 1 ∧ ∀ k, 0 ≤ specRow w 0 g k := by
+  unfold specRow
+  by_cases he : g.snap = []
+  · simp only [he, List.isEmpty_nil, if_true]
+    constructor
+    · have : AITB.Factored.sumN w (fun i => if i = 0 ∧ i < w then (1 : Rat) else 0) = AITB.Factored.sumN w (fun i => if 0 = i then (1 : Rat) else 0) := by
+        apply sumN_congr
+        intro k hk
+        by_cases h0 : k = 0
+        · subst h0; simp [hw]
+        · have : ¬ 0 = k := fun e => h0 e.symm
+          simp [h0, this]
+      rw [this, ← sumUpTo_eq_sumN, sumUpTo_indicator]
+      simp [hw]
+    · intro k; split <;> norm_num
+  · have hne : g.snap.isEmpty = false := by
+      cases hsn : g.snap with
+      | nil => exact absurd hsn he
+      | cons _ _ => rfl
+    simp only [hne]
+    obtain ⟨h1, h2⟩ := freq_row_is_distribution w g.snap he hs
+    exact ⟨by rw [← sumUpTo_eq_sumN]; exact h2, h1⟩
+
+theorem prodOver_nonneg (F : Nat → Nat → Rat) (hF : ∀ i v, 0 ≤ F i v) : ∀ (pos : Nat) (l : List Nat), 0 ≤ prodOver F pos l
+  | _, [] => by simp [prodOver]
+  | pos, v :: vs => by simp only [prodOver]; exact mul_nonneg (hF pos v) (prodOver_nonneg F hF (pos + 1) vs)
+
+/-- **coop_joint_is_distribution** — after ANY history, for every `(s,a)`, the joint next-state probabilities
+    `CooperativeMaximumLikelihoodModel::getTransitionProbability(s, a, ·)` are non-negative and sum to one over the whole factored
+    state space: the learned factored model always exposes a valid distribution (synced contexts: empirical frequencies;
+    the others: the fixed valid default). -/
+theorem coop_joint_is_distribution (g : DDNGraph) (junk : Rat) (h : List FOp) (hwf : ∀ op ∈ h, op.WF g)
+    (hok : ∀ i, i < g.S.length → ParentsOK g i) (s a : List Nat) (hs : Valid g.S s) (ha : Valid g.A a)
+    (hpos : ∀ d ∈ g.S, 0 < d) :
+    let cw := (CoopWorld.init g).run (cfgPlain junk) g h
+    AITB.Factored.sumN (space g.S) (fun id => coopTransProb g cw s a (toFactors g.S id)) = 1 ∧
+    ∀ s1, Valid g.S s1 → 0 ≤ coopTransProb g cw s a s1 := by
+  intro cw
+  -- every spec row of the contexts of (s,a) is a distribution
+  have hrow : ∀ i, i < g.S.length → AITB.Factored.sumN (g.S.getD i 0) (coopSpecP g h s a i) = 1 ∧ ∀ k, 0 ≤ coopSpecP g h s a i k := by
+    intro i hi
+    have hw : 0 < g.S.getD i 0 := by
+      have : g.S.getD i 0 ∈ g.S := by simp [List.getD_eq_getElem?_getD, List.getElem?_eq_getElem hi]
+      exact hpos _ this
+    have hk : ∀ op ∈ h.map (FOp.toKOp i), op.WF (coopIdx g i) (coopOK g) (g.S.getD i 0) := by
+      intro op hop
+      obtain ⟨fop, hf, rfl⟩ := List.mem_map.mp hop
+      exact (hwf fop hf).toKOp i hi
+    have hwfl := keyed_wfAll (coopIdx g i) (ctxOf g i) (coopOK g) (g.S.getD i 0) (ctxOf g i (s, a)) (h.map (FOp.toKOp i)) hk
+    have hg := (ghost_wf (g.S.getD i 0) _ Ghost.init (by simp [Ghost.init]) (by simp [Ghost.init]) hwfl).2
+    exact specRow_distribution (g.S.getD i 0) hw (coopGhost g i h (s, a)) hg
+  have hprod : ∀ s1, Valid g.S s1 → coopTransProb g cw s a s1 = prodOver (coopSpecP g h s a) 0 s1 := by
+    intro s1 hs1
+    rw [(coop_joint_probability g junk h hwf hok s a s1 hs ha hs1).1]
+    have := foldl_range_getD (coopSpecP g h s a) s1 0 1
+    simp only [Nat.sub_zero, one_mul] at this
+    rw [← this, List.range_eq_range', valid_length g.S s1 hs1]
+  constructor
+  · have : ∀ id, coopTransProb g cw s a (toFactors g.S id) = prodOver (coopSpecP g h s a) 0 (toFactors g.S id) :=
+      fun id => hprod _ (toFactors_valid g.S id hpos)
+    simp only [this]
+    exact sum_prodOver (coopSpecP g h s a) g.S 0 hpos (fun i hi => by simpa using (hrow i hi).1)
+  · intro s1 hs1
+    rw [hprod s1 hs1]
+    apply prodOver_nonneg
+    intro i v
+    by_cases hi : i < g.S.length
+    · exact (hrow i hi).2 v
+    · -- beyond the features the spec row is the default / a frequency: non-negative by definition
+      unfold coopSpecP specRow
+      split
+      · split <;> norm_num
+      · unfold freqOf; positivity
+
+/-- the joint of ANY tables whose looked-up rows are distributions is a distribution (the product loop of
+    `DDN::getTransitionProbability` over the rows `getId(i,s,a)`) -/
+theorem coop_joint_of_rows (g : DDNGraph) (cw : CoopWorld) (s a : List Nat) (hpos : ∀ d ∈ g.S, 0 < d)
+    (hrow : ∀ i, i < g.S.length →
+      AITB.Factored.sumN (g.S.getD i 0) (fun v => nthQ (cw.pair i (g.getId i s a)).row v) = 1 ∧
+      ∀ v, 0 ≤ nthQ (cw.pair i (g.getId i s a)).row v) :
+    AITB.Factored.sumN (space g.S) (fun id => coopTransProb g cw s a (toFactors g.S id)) = 1 ∧
+    ∀ s1, s1.length = g.S.length → 0 ≤ coopTransProb g cw s a s1 := by
+  have hprod : ∀ s1, s1.length = g.S.length →
+      coopTransProb g cw s a s1 = prodOver (fun i v => nthQ (cw.pair i (g.getId i s a)).row v) 0 s1 := by
+    intro s1 hl
+    unfold coopTransProb
+    have := foldl_range_getD (fun i v => nthQ (cw.pair i (g.getId i s a)).row v) s1 0 1
+    simp only [Nat.sub_zero, one_mul] at this
+    rw [← this, List.range_eq_range', hl]
+  constructor
+  · have : ∀ id, coopTransProb g cw s a (toFactors g.S id)
+        = prodOver (fun i v => nthQ (cw.pair i (g.getId i s a)).row v) 0 (toFactors g.S id) :=
+      fun id => hprod _ (toFactors_length g.S id)
+    simp only [this]
+    exact sum_prodOver _ g.S 0 hpos (fun i hi => by simpa using (hrow i hi).1)
+  · intro s1 hl
+    rw [hprod s1 hl]
+    -- positions beyond the features do not occur in a tuple of length |S|; bound the product through the list itself
+    have : ∀ (l : List Nat) (pos : Nat), pos + l.length ≤ g.S.length →
+        0 ≤ prodOver (fun i v => nthQ (cw.pair i (g.getId i s a)).row v) pos l := by
+      intro l
+      induction l with
+      | nil => intro pos _; simp [prodOver]
+      | cons v vs ih =>
+        intro pos hp
+        simp only [prodOver]
+        have hlt : pos < g.S.length := by simp at hp; omega
+        exact mul_nonneg ((hrow pos hlt).2 v) (ih (pos + 1) (by simp at hp ⊢; omega))
+    exact this s1 0 (by omega)
+
+theorem sumN_nthQ (l : List Rat) : AITB.Factored.sumN l.length (nthQ l) = sumQ l := by
+  induction l with
+  | nil => rfl
+  | cons x xs ih =>
+    have := sumN_add 1 xs.length (nthQ (x :: xs))
+    rw [List.length_cons, Nat.add_comm xs.length 1, this]
+    simp only [AITB.Factored.sumN, nthQ, zero_add]
+    have e : (fun j => nthQ (x :: xs) (1 + j)) = nthQ xs := by
+      funext j; rw [Nat.add_comm]; rfl
+    rw [e, ih, sumQ]
+
+theorem nthQ_mem_or_zero (l : List Rat) : ∀ i, nthQ l i = 0 ∨ nthQ l i ∈ l := by
+  induction l with
+  | nil => intro i; left; rfl
+  | cons x xs ih =>
+    intro i
+    cases i with
+    | zero => right; simp [nthQ]
+    | succ i =>
+      rcases ih i with h | h
+      · left; simpa [nthQ] using h
+      · right; simp only [nthQ]; exact List.mem_cons_of_mem _ h
+
+/-- **coop_thompson_joint_valid** — the cooperative posterior-sampling model exposes a valid joint distribution: if the rows
+    `getId(i,s,a)` hold what `syncRow` wrote (`normalize` of positive gamma draws, one per next value), then
+    `getTransitionProbability(s,a,·)` is non-negative and sums to one over the factored state space — whatever the draws were. -/
+theorem coop_thompson_joint_valid (g : DDNGraph) (cw : CoopWorld) (s a : List Nat) (hpos : ∀ d ∈ g.S, 0 < d)
+    (hrows : ∀ i, i < g.S.length → ∃ gs : List Rat, gs.length = g.S.getD i 0 ∧ (∀ x ∈ gs, 0 < x) ∧
+      (cw.pair i (g.getId i s a)).row = normalize gs) :
+    AITB.Factored.sumN (space g.S) (fun id => coopTransProb g cw s a (toFactors g.S id)) = 1 ∧
+    ∀ s1, s1.length = g.S.length → 0 ≤ coopTransProb g cw s a s1 := by
+  apply coop_joint_of_rows g cw s a hpos
+  intro i hi
+  obtain ⟨gs, hl, hp, hr⟩ := hrows i hi
+  have hw : 0 < g.S.getD i 0 := by
+    have : g.S.getD i 0 ∈ g.S := by simp [List.getD_eq_getElem?_getD, List.getElem?_eq_getElem hi]
+    exact hpos _ this
+  have hne : gs ≠ [] := by intro e; rw [e] at hl; simp only [List.length_nil] at hl; omega
+  obtain ⟨hpos', hsum, _⟩ := thompson_rows_valid gs hne hp
+  rw [hr]
+  constructor
+  · have : (normalize gs).length = g.S.getD i 0 := by simp [normalize, hl]
+    rw [← this, sumN_nthQ]; exact hsum
+  · intro v
+    rcases nthQ_mem_or_zero (normalize gs) v with h | h
+    · rw [h]
+    · exact le_of_lt (hpos' _ h)
+
 /-! ### satisfiability: a DDN with a two-agent parent set, non-uniform sizes with `S[k] ≠ A[k]`, non-prefix parent features -/
 
 /-- S = (3,2,4), A = (2,3).  Feature 0: parent agents {0,1} (6 joint actions), parent features alternate between {2}, {0,2}, {1};
